@@ -147,6 +147,32 @@ fn run_trace(line: &str, dir: &str) -> String {
                     }
                 }
             }
+            "panicheld" => {
+                // like dropheld, but the store is dropped by a panic unwinding through its
+                // owner (the worker is held at its gate)
+                if let Some(s) = st.take() {
+                    shim::logline("c drop".to_string());
+                    let (tx, rx) = std::sync::mpsc::channel();
+                    struct SendOnDrop(std::sync::mpsc::Sender<()>);
+                    impl Drop for SendOnDrop {
+                        fn drop(&mut self) {
+                            let _ = self.0.send(());
+                        }
+                    }
+                    let h = std::thread::spawn(move || {
+                        let _after = SendOnDrop(tx); // dropped after the store
+                        let _owned = s;
+                        panic!("injected panic while owning the store");
+                    });
+                    let returned = rx.recv_timeout(std::time::Duration::from_millis(150)).is_ok();
+                    shim::logline(format!("c dropheld {}", if returned { "returned" } else { "blocked" }));
+                    if returned {
+                        let _ = h.join();
+                    } else {
+                        held_drop = Some(h);
+                    }
+                }
+            }
             "release" => {
                 shim::set_gate(false);
                 if let Some(h) = held_drop.take() {
